@@ -1551,6 +1551,10 @@ Error X86RAPass::emit_swap(RAWorkReg* a_reg, uint32_t a_phys_id, RAWorkReg* b_re
 }
 
 Error X86RAPass::emit_load(RAWorkReg* work_reg, uint32_t dst_phys_id) noexcept {
+  if (ASMJIT_UNLIKELY(!get_or_create_stack_slot(work_reg))) {
+    return make_error(Error::kOutOfMemory);
+  }
+
   Reg dst_reg(work_reg->signature(), dst_phys_id);
   BaseMem src_mem(work_reg_as_mem(work_reg));
 
@@ -1568,6 +1572,10 @@ Error X86RAPass::emit_load(RAWorkReg* work_reg, uint32_t dst_phys_id) noexcept {
 }
 
 Error X86RAPass::emit_save(RAWorkReg* work_reg, uint32_t src_phys_id) noexcept {
+  if (ASMJIT_UNLIKELY(!get_or_create_stack_slot(work_reg))) {
+    return make_error(Error::kOutOfMemory);
+  }
+
   BaseMem dst_mem(work_reg_as_mem(work_reg));
   Reg src_reg(work_reg->signature(), src_phys_id);
 
